@@ -210,7 +210,22 @@ def run(ctx):
             return
 
 
+_run_core = run
+
+
+def run(ctx):
+    _run_core(ctx)
+    if ctx.n_new() == 0 and ctx.driver_ok:
+        from harness.common import run_demo
+        if ctx.n_new() == 0:
+            run_demo(ctx, 'demo_tr4.py', [1 + ctx.seed], 'c10-code-vs-generated-vs-model-4',
+                     'first pass of marginalize (before prune) vs generated step vs model', env_extra=dict(DEMO_SECTIONS='c'))
+
+
 def replay(rep):
+    if rep['replay'].get('kind') == 'demo':
+        from harness.common import replay_demo
+        return replay_demo(rep['replay'])
     r = rep['replay']
     if r['kind'] == 'c10-learned':
         data = np.array(r['data'], dtype=np.float32)
